@@ -106,11 +106,11 @@ func judgeValue(d Data) engine.Outcome {
 	}
 	sig, f, un1 := checkTokens(v, unspecNum)
 	if f != nil {
-		return engine.Fail("c11."+f.clause+"."+localize(tokensChecker, v, f.clause), "%s", f.detail)
+		return engine.Fail("c11."+classify(tokensChecker, v, f), "%s", f.detail)
 	}
 	af, un2 := checkAttr(v, unspecNum)
 	if af != nil {
-		return engine.Fail("c11."+af.clause+"."+localize(attrChecker, v, af.clause), "%s", af.detail)
+		return engine.Fail("c11."+classify(attrChecker, v, af), "%s", af.detail)
 	}
 	if un1 || un2 {
 		counters.Add("unspecified_number_beyond_512_bits", 1)
@@ -145,29 +145,22 @@ func judgeLabels(d Data, reader string) engine.Outcome {
 	return engine.Pass("l:" + reader + ":" + sig)
 }
 
-// narrowLabelClass re-runs the failing path on single labels and on
-// substrings of a single label so the class names the smallest label that
-// fails in the same way.
+// narrowLabelClass re-runs the failing reader and path on single labels and on
+// substrings of a single label so the class is that of the smallest label
+// that fails on its own.
 func narrowLabelClass(reader, path, typeName string, labels []string, class string) string {
-	clauseOf := func(cl string) string {
-		parts := strings.SplitN(cl, ".", 4)
-		if len(parts) >= 3 {
-			return strings.Join(parts[:3], ".")
-		}
+	try := func(ls []string) (cl string) {
+		defer func() {
+			if r := recover(); r != nil {
+				cl = ""
+			}
+		}()
+		_, cl, _ = checkLabelsOnce(reader, path, typeName, ls)
 		return cl
-	}
-	want := clauseOf(class)
-	try := func(ls []string) (string, bool) {
-		defer func() { recover() }()
-		_, cl, _ := checkLabelsOnce(reader, path, typeName, ls)
-		if cl != "" && clauseOf(cl) == want {
-			return cl, true
-		}
-		return "", false
 	}
 	if len(labels) > 1 {
 		for _, l := range labels {
-			if cl, ok := try([]string{l}); ok {
+			if cl := try([]string{l}); cl != "" {
 				return narrowLabelClass(reader, path, typeName, []string{l}, cl)
 			}
 		}
@@ -177,7 +170,7 @@ func narrowLabelClass(reader, path, typeName string, labels []string, class stri
 		rs := []rune(labels[0])
 		for n := 1; n < len(rs); n++ {
 			for i := 0; i+n <= len(rs); i++ {
-				if cl, ok := try([]string{string(rs[i : i+n])}); ok {
+				if cl := try([]string{string(rs[i : i+n])}); cl != "" {
 					return cl
 				}
 			}
@@ -248,6 +241,69 @@ func travOnce(root string, steps []Step) (sig, clause, detail string, skippedSta
 	return string(src), "", "", skippedStatic, false
 }
 
+// classifyTrav names a traversal failure after the smallest failing part: a
+// single step (after the same root) that fails alone, and for a string key
+// the smallest failing substring; the class is "<clause>.<step shape>" of
+// that smallest failing sub-case.
+func classifyTrav(root string, steps []Step, clause string) string {
+	try := func(st []Step) (cl string) {
+		defer func() {
+			if r := recover(); r != nil {
+				cl = "panic"
+			}
+		}()
+		_, cl, _, _, h := travOnce(root, st)
+		if h {
+			return ""
+		}
+		return cl
+	}
+	shapeOf := func(st []Step) string {
+		t, err := buildTraversal("", st)
+		if err != nil || len(t) == 0 {
+			return "root-only"
+		}
+		seen := map[string]bool{}
+		var ps []string
+		for _, s := range t {
+			sh := stepShape(s)
+			if !seen[sh] {
+				seen[sh] = true
+				ps = append(ps, sh)
+			}
+		}
+		return strings.Join(ps, ",")
+	}
+	if len(steps) > 1 {
+		for _, s := range steps {
+			if cl := try([]Step{s}); cl != "" {
+				return classifyTrav(root, []Step{s}, cl)
+			}
+		}
+		// no single step fails alone: try adjacent pairs
+		if len(steps) > 2 {
+			for i := 0; i+1 < len(steps); i++ {
+				if cl := try(steps[i : i+2]); cl != "" {
+					return cl + "." + shapeOf(steps[i:i+2])
+				}
+			}
+		}
+		return clause + "." + shapeOf(steps)
+	}
+	if len(steps) == 1 && steps[0].K == "str" {
+		rs := []rune(steps[0].S)
+		for n := 1; n < len(rs); n++ {
+			for i := 0; i+n <= len(rs); i++ {
+				st := []Step{{"str", string(rs[i : i+n])}}
+				if cl := try(st); cl != "" {
+					return cl + "." + shapeOf(st)
+				}
+			}
+		}
+	}
+	return clause + "." + shapeOf(steps)
+}
+
 func judgeTrav(d Data) engine.Outcome {
 	sig, clause, detail, skippedStatic, harness := travOnce(d.Root, d.Steps)
 	if harness {
@@ -255,41 +311,7 @@ func judgeTrav(d Data) engine.Outcome {
 		return engine.Skip()
 	}
 	if clause != "" {
-		// name the smallest part: a single step that fails alone the same way
-		shapes := ""
-		if len(d.Steps) > 1 {
-			for _, s := range d.Steps {
-				func() {
-					defer func() { recover() }()
-					if _, cl, _, _, h := travOnce(d.Root, []Step{s}); !h && cl == clause && shapes == "" {
-						t, _ := buildTraversal("", []Step{s})
-						shapes = stepShape(t[0])
-					}
-				}()
-			}
-		}
-		if shapes == "" {
-			t, _ := buildTraversal("", d.Steps)
-			seen := map[string]bool{}
-			var ps []string
-			for _, s := range t {
-				sh := stepShape(s)
-				if !seen[sh] {
-					seen[sh] = true
-					ps = append(ps, sh)
-				}
-			}
-			shapes = strings.Join(ps, ",")
-		}
-		kind := "absolute"
-		if d.Root == "" {
-			kind = "relative"
-		}
-		if len(d.Steps) == 0 {
-			shapes = "root-only"
-		}
-		_ = kind
-		return engine.Fail("c11.traversal."+clause+"."+shapes, "%s", detail)
+		return engine.Fail("c11.traversal."+classifyTrav(d.Root, d.Steps, clause), "%s", detail)
 	}
 	if skippedStatic {
 		counters.Add("traversals_negative_number_key_checked_by_evaluation_only", 1)
